@@ -285,6 +285,394 @@ def corr_tofourier(rng, count):
     return r
 
 
+# ------------------------------------------------------------------------------------------ r_singularity root selection
+def _rsing_loop_source():
+    """the text of the per-grid-point loop of calculate_r_singularity (current source), as a function of the g arrays and of a
+    `polyroots` replacement: K's, coefficients and the loop are executed from the real text, nothing is re-implemented"""
+    import inspect, textwrap
+    from qsc import r_singularity as mod
+    src = inspect.getsource(mod.calculate_r_singularity).split('\n')
+    a = next(k for k, l in enumerate(src) if l.strip().startswith('K0 = '))
+    b = next(k for k, l in enumerate(src) if l.strip().startswith('self.r_singularity_vs_varphi ='))
+    body = textwrap.dedent('\n'.join(src[a:b]))
+    code = 'def loop(g0, g1c, g20, g2s, g2c, nphi, s, lp, np, r_singularity_vs_varphi, r_singularity_basic_vs_varphi, ' \
+           'r_singularity_residual_sqnorm, r_singularity_theta_vs_varphi):\n' + textwrap.indent(body, '    ') + \
+           '\n    return dict(K0=K0, K2s=K2s, K2c=K2c, K4s=K4s, K4c=K4c, r=r_singularity_vs_varphi)\n'
+    ns = dict(logger=logging.getLogger('qsc.r_singularity_corr'), warnings=__import__('warnings'))
+    exec(compile(code, '<r_singularity loop>', 'exec'), ns)
+    return ns['loop']
+
+
+class _NpProxy:
+    """numpy with `polynomial.polynomial.polyroots` replaced (records / overrides the roots)"""
+    def __init__(self, fn):
+        class PP:  # noqa
+            pass
+        self.polynomial = PP(); self.polynomial.polynomial = PP(); self.polynomial.polynomial.polyroots = fn
+    def __getattr__(self, k):
+        return getattr(np, k)
+
+
+def corr_rsing(rng, objs, extra=60):
+    r = result()
+    loop = _rsing_loop_source()
+    lines, plan = [], []
+    def run_points(g, roots_override=None):
+        """g: dict of arrays g0..g2c; returns per-point (scalars, roots, expected rc or None when the source raised)"""
+        n = len(g['g0'])
+        for j in range(n):
+            rec = []
+            def pr(c):
+                rt = np.polynomial.polynomial.polyroots(c) if roots_override is None else roots_override(c)
+                rt = np.asarray(rt, dtype=complex)
+                rec.append(rt)
+                return rt
+            one = {k: np.array([v[j]]) for k, v in g.items()}
+            class S: B0 = 1.0
+            try:
+                out = loop(one['g0'], one['g1c'], one['g20'], one['g2s'], one['g2c'], 1, S, 1.0, _NpProxy(pr),
+                           np.zeros(1), np.zeros(1), np.zeros(1), np.zeros(1))
+                expect = float(out['r'][0])
+                Ks = {k: float(out[k][0]) for k in ('K0', 'K2s', 'K2c', 'K4s', 'K4c')}
+            except RuntimeError:
+                expect = None
+                g1c, g20, g2s_, g2c_, g0_ = (one[k][0] for k in ('g1c', 'g20', 'g2s', 'g2c', 'g0'))
+                Ks = dict(K0=2*g1c*g1c*g20 - 3*g1c*g1c*g2c_ + 8*g0_*g2c_*g2c_ + 8*g0_*g2s_*g2s_, K2s=2*g1c*g1c*g2s_,
+                          K2c=-2*g1c*g1c*g20 + 2*g1c*g1c*g2c_, K4s=g1c*g1c*g2s_ - 16*g0_*g2c_*g2s_,
+                          K4c=g1c*g1c*g2c_ - 8*g0_*g2c_*g2c_ + 8*g0_*g2s_*g2s_)
+            if not rec or len(rec[0]) != 4:
+                continue
+            rt = rec[0]
+            sc = [one[k][0] for k in ('g0', 'g1c', 'g20', 'g2s', 'g2c')] + [Ks[k] for k in ('K0', 'K2s', 'K2c', 'K4s', 'K4c')]
+            lines.append('hand rsing %s %s %s' % (bl(sc), bl(rt.real), bl(rt.imag)))
+            plan.append((sc, rt, expect))
+    # (1) the real objects: g arrays captured from the real run, real polyroots
+    for q in objs:
+        if getattr(q, 'order', 'r1') == 'r1':
+            continue
+        with Capture(['calculate_r_singularity']) as cap:
+            q.calculate_r_singularity()
+        L = cap.locals['calculate_r_singularity']
+        g = {k: np.asarray(L[k], float) * np.ones(q.nphi) for k in ('g0', 'g1c', 'g20', 'g2s', 'g2c')}
+        k0 = len(plan)
+        run_points(g)
+        # the slice of the source reproduces the full function on this object
+        got = [p[2] for p in plan[k0:]]
+        if len(got) == q.nphi and not np.array_equal(np.array(got, float), L['r_singularity_vs_varphi']):
+            r['disagreements'].append(dict(kernel='rsing', what='source slice differs from the full function'))
+        # np.min over the grid
+        lines.append('hand rsingmin %s' % bl(q.r_singularity_vs_varphi)); plan.append(('min', q.r_singularity_vs_varphi, float(q.r_singularity)))
+    # (2) synthetic scalars; roots exact, perturbed, made complex, pushed to |w| = 1, or forced through trig-exact points
+    for t in range(extra):
+        n = 3
+        mode = t % 7
+        g = dict(g0=rng.normal(size=n) * rng.choice([1.0, 0.1]), g1c=rng.normal(size=n), g20=rng.normal(size=n),
+                 g2s=rng.normal(size=n), g2c=rng.normal(size=n))
+        if mode == 1:   # singular point planted at (r0, th0): roots are meaningful and candidates are accepted
+            th = rng.uniform(0, 2 * np.pi, size=n); r0 = rng.uniform(0.05, 2.0, size=n)
+            d = g['g2s'] * np.cos(2 * th) - g['g2c'] * np.sin(2 * th)
+            g['g1c'] = 2 * r0 * d / np.sin(th)
+            g['g0'] = -(r0 * g['g1c'] * np.cos(th) + r0 * r0 * (g['g20'] + g['g2s'] * np.sin(2 * th) + g['g2c'] * np.cos(2 * th)))
+        if mode == 2:   # g2s = 0: stellarator-symmetric point, double structure, quadratic_A may be tiny
+            g['g2s'] = np.zeros(n)
+        ov = None
+        if mode == 3:
+            ov = lambda c: np.polynomial.polynomial.polyroots(c) + rng.normal(size=4) * 1e-8 * (1 + 1j)
+        if mode == 4:
+            ov = lambda c: np.array([1.0, -1.0, float(np.nextafter(1.0, 2.0)), 0.0]) + 0j
+        if mode == 5:
+            ov = lambda c: np.array([rng.uniform(-1, 1), float('nan'), rng.uniform(-1, 1) + 1.0000001e-7j, rng.uniform(-1, 1) + 1e-7j])
+        if mode == 6:   # quadratic_A tiny at a planted singular point: the `-quadratic_C / quadratic_B` branch
+            th6 = rng.uniform(0, 2 * np.pi); r6 = rng.uniform(0.05, 2.0); w6 = float(np.sin(2 * th6)); x6 = float(np.cos(2 * th6))
+            dl = rng.choice([0.0, 3e-14, 2e-13, 1e-11], size=n)
+            g['g2c'] = np.zeros(n); g['g20'] = -g['g2s'] * w6 + dl
+            g['g1c'] = 2 * r6 * g['g2s'] * x6 / np.sin(th6)
+            g['g0'] = -(r6 * g['g1c'] * np.cos(th6) + r6 * r6 * (g['g20'] + g['g2s'] * w6))
+            ov = lambda c: np.array([w6, -w6, 0.5, 2.0]) + 0j
+        run_points(g, ov)
+    for pl, blk in zip(plan, run_hand(lines)):
+        r['evaluations'] += 1
+        if isinstance(pl[0], str):
+            ok = 'min' in blk and int(blk['min'][0]) == bits(pl[2])
+            if not ok:
+                r['disagreements'].append(dict(kernel='rsingmin', impl=pl[2], model=blk))
+            continue
+        sc, rt, expect = pl
+        if expect is None:
+            ok = blk.get('error') == ['1']
+            r['distinct'].add('raise')
+        else:
+            ok = 'rc' in blk and int(blk['rc'][0]) == bits(expect) and int(blk['inv'][0]) == bits(1 / np.float64(expect))
+            r['distinct'].add(('sentinel' if expect == 1e100 else 'root', int(np.sum(np.abs(rt.imag) <= 1e-7))))
+        if not ok:
+            r['disagreements'].append(dict(kernel='rsing', scalars=[float(x) for x in sc], roots=[complex(z) for z in rt],
+                                           impl=expect, model={k: v for k, v in blk.items()}))
+    r['samples'] = [dict(kernel='rsing', scalars=[float(x) for x in p[0]], rc=p[2]) for p in plan[:3] if not isinstance(p[0], str)]
+    return r
+
+
+
+# ------------------------------------------------------------------------------------------ fourier_minimum control logic
+def corr_fmin(rng, count):
+    import scipy.optimize
+    import qsc.util as U
+    r = result()
+    lines, plan = [], []
+    cap = {}
+    orig = scipy.optimize.minimize_scalar
+    def spy(f, bracket=None, **kw):
+        cap['bracket'] = list(bracket)
+        return orig(f, bracket=bracket, **kw)
+    scipy.optimize.minimize_scalar = spy
+    try:
+        for t in range(count):
+            n = int(rng.integers(1, 40))
+            kind = t % 5
+            ph = np.linspace(0, 2 * np.pi, n, endpoint=False)
+            if kind == 0:
+                y = 1 + 0.3 * np.cos(ph - rng.uniform(0, 6)) + 0.1 * np.sin(3 * ph)
+            elif kind == 1:
+                y = np.full(n, float(rng.normal()))
+            elif kind == 2:
+                y = 2.5 + 1e-16 * rng.standard_normal(n)
+            elif kind == 3:
+                y = rng.standard_normal(n)
+            else:
+                y = np.round(rng.standard_normal(n), 0)        # ties
+            cap.clear()
+            try:
+                val = U.fourier_minimum(y); err = None
+            except Exception as e:
+                val = float('nan'); err = type(e).__name__
+            idx = int(np.argmin(y)); dx = 2 * np.pi / n
+            f = lambda x: fourier_interpolation(y, np.array([x]))[0]
+            vals = [f(idx * dx)]
+            for j in (1, 2, 3):
+                br = np.array([idx - j, idx, idx + j]) * dx
+                vals += [f(br[0]), f(br[2])]
+            lines.append('hand fmin %d %s' % (n, bl(list(y) + vals + [val])))
+            plan.append(dict(n=n, kind=kind, y=y, val=val, err=err, idx=idx, pyconst='bracket' not in cap, bracket=list(cap.get('bracket', []))))
+    finally:
+        scipy.optimize.minimize_scalar = orig
+    for pl, blk in zip(plan, run_hand(lines)):
+        r['evaluations'] += 1
+        r['distinct'].add((pl['kind'], pl['n']))
+        const = blk.get('const', ['?'])[0] == '1'
+        ok = (const == pl['pyconst'])
+        if ok and not const:
+            ok = [unbits(x) for x in blk['bracket']] == pl['bracket'] and int(blk['index'][0]) == pl['idx']
+            ok = ok and (pl['err'] is not None or unbits(blk['value'][0]) == pl['val'])
+        elif ok:
+            ok = unbits(blk['value'][0]) == pl['val'] or (pl['val'] != pl['val'])
+        if not ok:
+            r['disagreements'].append(dict(kernel='fmin', n=pl['n'], kind=pl['kind'], model={k: v for k, v in blk.items()}, impl=dict(const=pl['pyconst'], index=pl['idx'], bracket=pl['bracket'], value=pl['val'], err=pl['err'])))
+    r['samples'] = [dict(kernel='fmin', n=p_['n'], kind=p_['kind'], index=p_['idx'], constant_branch=p_['pyconst']) for p_ in plan[:3]]
+    return r
+
+
+# ------------------------------------------------------------------------------------------ to_vmec layout
+def corr_vmec(rng, objs):
+    import re, tempfile, copy
+    r = result()
+    lines, plan = [], []
+    with tempfile.TemporaryDirectory() as tmp:
+        for q0 in objs:
+            q = copy.deepcopy(q0)
+            rr = float(min(0.03 * np.min(q.R0), 0.2 * getattr(q, 'r_singularity', 1e100), 0.1 / np.max(q.curvature)))
+            ntheta = int(rng.choice([6, 7, 9, 10])); ntorMax = int(rng.choice([14, 4, 2]))
+            params = {} if rng.random() < 0.6 else {'mpol': 3, 'ntor': 5}
+            fn = os.path.join(tmp, 'input.x')
+            try:
+                q.to_vmec(fn, r=rr, params=dict(params), ntheta=ntheta, ntorMax=ntorMax)
+            except ValueError:
+                continue
+            txt = open(fn).read()
+            arrs = [np.array(q.RBC).T, np.array(q.ZBS).T]
+            if q.lasym:
+                arrs += [np.array(q.RBS).T, np.array(q.ZBC).T]
+            nax = len(q.rc)
+            args = [str(ntheta), str(q.nphi), str(ntorMax), str(params.get('mpol', '-')), str(params.get('ntor', '-')), '1' if q.lasym else '0', str(q.nfp)]
+            args += [str(bits(x)) for x in [rr, q.spsi, q.B0, q.p2, q.I2]] + [str(nax)]
+            for a in [q.rc, q.zs, q.rs, q.zc]:
+                args += [str(bits(x)) for x in a]
+            for a in arrs:
+                args += [str(bits(x)) for x in a.flatten()]
+            lines.append('hand vmec ' + ' '.join(args))
+            plan.append(('vmec', q, txt, params, ntheta, ntorMax))
+            lines.append('hand lasym %s %d %d %d %s' % ('1' if q.order == 'r1' else '0', bits(q.sigma0), bits(q.B2s), nax, bl(list(q.rs) + list(q.zc))))
+            plan.append(('lasym', q, None, None, None, None))
+    for (kind, q, txt, params, ntheta, ntorMax), blk in zip(plan, run_hand(lines)):
+        r['evaluations'] += 1
+        r['distinct'].add((kind, q.order, bool(q.lasym), ntheta, ntorMax))
+        bad = []
+        if kind == 'lasym':
+            if (blk.get('lasym', ['?'])[0] == '1') != bool(q.lasym):
+                bad.append('lasym decision')
+        else:
+            g = lambda k: re.search(r'^\s*' + k + r' = (.*)$', txt, re.M).group(1)
+            def chk(name, a, c):
+                if a != c:
+                    bad.append('%s: file %r model %r' % (name, a, c))
+            try:
+                chk('mpol', int(g('MPOL')), int(blk['mpol'][0])); chk('NTOR', int(g('NTOR')), int(blk['NTOR'][0]))
+                chk('nfp', int(g('NFP')), int(blk['nfp'][0])); chk('lasym', g('LASYM'), 'True' if blk['lasym'][0] == '1' else 'False')
+                chk('phiedge', float(g('PHIEDGE')), unbits(blk['phiedge'][0])); chk('curtor', float(g('CURTOR')), unbits(blk['curtor'][0]))
+                chk('am', [float(t) for t in g('AM').split(', ')], [unbits(x) for x in blk['am']])
+                for nm in ['RAXIS_CC', 'RAXIS_CS', 'ZAXIS_CC', 'ZAXIS_CS']:
+                    mm = re.search(r'^\s*' + nm + r' = ((?:.|\n(?!\s*[A-Z!/]))*)', txt, re.M)
+                    chk('axis present ' + nm, mm is not None, ('axis_' + nm) in blk)
+                    if mm and ('axis_' + nm) in blk:
+                        fv = [float(t) for t in mm.group(1).split()]
+                        mv = [unbits(x) for x in blk['axis_' + nm]]
+                        if len(fv) != len(mv) or any(abs(a - c) > 1e-7 * (abs(c) + 1e-30) + 1e-300 for a, c in zip(fv, mv)):
+                            bad.append('axis values ' + nm)
+                fl, fv = [], []
+                for l in txt.splitlines():
+                    mm = re.match(r'\s*(RBC|RBS)\(([-\d]+),([-\d]+)\) = (\S+),\s+(ZBS|ZBC)\(([-\d]+),([-\d]+)\) = (\S+)', l)
+                    if mm:
+                        fl += [int(mm.group(2)), int(mm.group(3)), 0 if mm.group(1) == 'RBC' else 1]; fv += [float(mm.group(4)), float(mm.group(8))]
+                ml = [int(x) for x in blk.get('lines', [])]; mv = [unbits(x) for x in blk.get('vals', [])]
+                chk('lines', fl, ml)
+                if len(fv) == len(mv):
+                    chk('vals', all(abs(a - c) <= 1e-15 * abs(c) for a, c in zip(fv, mv)), True)
+                else:
+                    bad.append('number of values')
+                chk('attr array', int(blk['asym_attr_is_array'][0]), 1 if isinstance(q.RBS, np.ndarray) and np.ndim(q.RBS) == 2 else 0)
+            except Exception as ex:
+                bad.append('unreadable file or model output: %s' % ex)
+        if bad:
+            r['disagreements'].append(dict(kernel='vmec', name=kind, why=bad[:4], order=q.order, lasym=bool(q.lasym)))
+    r['samples'] = [dict(kernel='vmec', order=p_[1].order, lasym=bool(p_[1].lasym), ntheta=p_[4], ntorMax=p_[5], params=p_[3]) for p_ in plan[:3] if p_[0] == 'vmec']
+    return r
+
+
+# ------------------------------------------------------------------------------------------ tail of calculate_shear
+def corr_shear(rng, objs):
+    import inspect
+    import qsc.calculate_r3 as c3
+    r = result()
+    src = inspect.getsource(c3.calculate_shear).rstrip() + "\n    return locals()\n"
+    ns = dict(c3.__dict__)
+    exec(src.replace("def calculate_shear", "def shear_locals"), ns)
+    lines, plan = [], []
+    for q in objs:
+        if q.order != 'r3':
+            continue
+        import copy
+        q = copy.copy(q)
+        L = ns['shear_locals'](q)
+        n = q.nphi
+        X1c, Y1c, Y1s = L['X1c'], L['Y1c'], L['Y1s']
+        facNum = X1c ** 2 + Y1c ** 2 + Y1s ** 2; facDen = Y1s ** 2
+        asym = 'integSigPer' in L
+        sol = L['integSigPer'] if asym else L['integSig'][1:]
+        nax = len(q.rs)
+        args = [str(n), str(q.nfp), str(nax), str(bits(q.sigma0)), str(bits(q.iotaN)), str(bits(q.B0))]
+        for a in [q.rs, q.zc, q.sigma, q.d_varphi_d_phi, q.varphi, L['LamTilde'], facNum, facDen, sol]:
+            args += [str(bits(x)) for x in a]
+        lines.append('hand shear ' + ' '.join(args))
+        plan.append((q, asym, L.get('avSig')))
+    for (q, asym, av), blk in zip(plan, run_hand(lines)):
+        r['evaluations'] += 1
+        r['distinct'].add((q.nfp, q.nphi, asym))
+        bad = []
+        if (blk.get('sym', ['?'])[0] == '1') == asym:
+            bad.append('branch')
+        im = unbits(blk['iota2'][0]) if 'iota2' in blk else float('nan')
+        if not (abs(im - q.iota2) <= 1e-10 * abs(q.iota2)):
+            bad.append('iota2 model %r impl %r' % (im, q.iota2))
+        if asym and av is not None and not (abs(unbits(blk['avSig'][0]) - av) <= 1e-12 * (abs(av) + 1e-300)):
+            bad.append('avSig')
+        if bad:
+            r['disagreements'].append(dict(kernel='shear', why=bad, nfp=q.nfp, nphi=q.nphi))
+    r['samples'] = [dict(kernel='shear', nfp=p_[0].nfp, nphi=p_[0].nphi, nonsymmetric_branch=p_[1], iota2=float(p_[0].iota2)) for p_ in plan[:3]]
+    return r
+
+
+# ------------------------------------------------------------------------------------------ DOF machine (integer-valued histories)
+def corr_dof(rng, count):
+    """The Lean machine works on integer-valued arrays; the real object is driven with the same integer values (stored as
+    floats) and a pipeline observer: parameters, names, DOF vector, ownership (np.shares_memory) and 'outputs stale?'"""
+    import copy
+    r = result()
+    for t in range(count):
+        nf = int(rng.integers(1, 4))
+        rc = [1] + [int(x) for x in rng.integers(-3, 4, size=nf - 1)]
+        zs = [0] + [int(x) for x in rng.integers(-3, 4, size=nf - 1)]
+        ops = ['new_rc=%s_zs=%s' % (','.join(map(str, rc)), ','.join(map(str, zs)))]
+        # the real object: parameters only (construction with integer coefficients is not an admissible stellarator, so the
+        # pipeline is replaced by an observer that records the parameters at each recalculation)
+        class Obs(Qsc):
+            def calculate(self):
+                self.snapshot = (tuple(self.rc), tuple(self.zs), tuple(self.rs), tuple(self.zc), self.etabar, self.sigma0, self.B2s, self.B2c, self.p2, self.I2, self.B0)
+                self.iota = 0.0; self.max_elongation = 0.0
+        q = Obs(rc=rc, zs=zs)
+        caller = {}
+        expect = ['ok nf=%d nphi=%d' % (q.nfourier, q.nphi)]
+        nsteps = int(rng.integers(2, 8))
+        for s in range(nsteps):
+            op = rng.choice(['set', 'resize', 'calc', 'get', 'mutate', 'names'])
+            if op == 'set':
+                x = [int(v) for v in rng.integers(-4, 5, size=4 * q.nfourier + 7)]
+                if rng.random() < 0.2:
+                    x = x[:-1]
+                ops.append('set_' + '_'.join(map(str, x)))
+                xa = np.array(x, dtype=float)
+                try:
+                    q.set_dofs(xa); caller[len(caller)] = xa; expect.append('ok')
+                except AssertionError:
+                    expect.append('AssertionError')
+            elif op == 'resize':
+                m = int(rng.integers(1, 5)); ops.append('resize_%d' % m); q.change_nfourier(m); expect.append('ok')
+            elif op == 'calc':
+                ops.append('calc'); q.calculate(); expect.append('ok')
+            elif op == 'get':
+                ops.append('get'); g = q.get_dofs(); caller[len(caller)] = g
+                expect.append('dofs ' + ' '.join(str(int(v)) for v in g))
+            elif op == 'names':
+                ops.append('names'); expect.append('names ' + ' '.join(q.names))
+            else:
+                if not caller:
+                    continue
+                kk = int(rng.integers(0, len(caller))); arr_ = caller[kk]
+                ii = int(rng.integers(0, len(arr_))); vv = int(rng.integers(-9, 10))
+                arr_[ii] = vv
+                ops.append(None); expect.append(None)       # mutation of a caller array: references differ between model and numpy
+                ops.pop(); expect.pop()
+                # instead of replaying the mutation in the model, require that the real object did not change
+            ops.append('params')
+            sc = [q.etabar, q.sigma0, q.B2s, q.B2c, q.p2, q.I2, q.B0]
+            fmt = lambda a: ','.join(str(int(v)) for v in a)
+            expect.append('params nf=%d rc=%s zs=%s rs=%s zc=%s' % (q.nfourier, fmt(q.rc), fmt(q.zs), fmt(q.rs), fmt(q.zc)))
+        blk = run_hand(['hand dof ' + ' '.join(ops)])[0]
+        got = []
+        # run_hand keeps only the last `out resp`; re-run raw to get all responses
+        p_ = subprocess.run(['lake', 'env', 'lean', '--run', 'QscModel/Driver.lean'], cwd=LEAN, input='hand dof ' + ' '.join(ops) + '\n', capture_output=True, text=True)
+        got = [l[len('out resp '):] for l in p_.stdout.split('\n') if l.startswith('out resp ')]
+        r['evaluations'] += 1
+        r['distinct'].add(tuple(o.split('_')[0] for o in ops))
+        bad = None
+        if len(got) != len(expect):
+            bad = 'number of responses %d vs %d' % (len(got), len(expect))
+        else:
+            for o, gm, e in zip(ops, got, expect):
+                gm2 = gm
+                if o.startswith('set') and gm.startswith('ok'):
+                    gm2 = 'ok'
+                if o == 'get':
+                    gm2 = 'dofs ' + ' '.join(gm.split(' ')[2:])
+                if o == 'params':
+                    gm2 = ' '.join(gm.split(' ')[:6])
+                    e = ' '.join(e.split(' ')[:6])
+                if gm2 != e:
+                    bad = 'op %s: model %r impl %r' % (o, gm2, e); break
+        if bad:
+            r['disagreements'].append(dict(kernel='dof', why=bad, ops=ops))
+        if len(r['samples']) < 2:
+            r['samples'].append(dict(kernel='dof', ops=ops[:8]))
+    return r
+
+
 def merge(rs):
     out = dict(evaluations=0, disagreements=[], samples=[], distinct=0)
     for r in rs:
